@@ -83,9 +83,12 @@ CHECKS = {
    text="Every public callable whose first parameter is a network (enumerated by introspection on each run, ambiguous names settled by a probe call), the three constructors and 27 read-only view/stat/network methods are called on every shape of the bound in two modes - symbolic unbounded labels, and labels forked over a window under real hashing - with recipe arguments (node/edge selections, order, flags solver-chosen); the deep snapshot of the argument network (order, members, memberships, three attribute levels, next automatic id, frozen flag) must be identical afterwards on every path, and again after the harness edits the structural containers and returned networks it was handed.",
    note="Reduced reach, stated: for branch-free callables this is one path per shape; callables that push labels into C code only run in the windowed concrete mode (the symbolic attempt is reported per callable in the evidence). Attribute records are live by design and are not edited; simulate_* and download functions are skipped by name.",
    technique="bounded symbolic execution (z3) + windowed label forking: snapshot-before = snapshot-after over an introspected API surface"),
+ "C20": dict(level="other", ref="10.9",
+   text="The label-quantified part of the property, decided with node labels and edge ids as unbounded solver integers (plus a string-label mode) on every small Hypergraph / SimplicialComplex shape (isolated nodes, singleton, duplicate and nested edges): each of the nine layout functions returns exactly one finite 2-D position per node (the bipartite layout also one per edge) and for nothing else; edge_positions_from_barycenters places each edge at the mean of its members' positions; xgi.draw - run for real on the Agg backend with harness-supplied positions in convex position and a solver-chosen max_order - returns one marker per node at its position in node order, one line per two-node edge joining its two members, and one polygon per larger edge up to max_order whose vertex set is exactly its members' positions (SimplicialComplex: maximal simplices of >= 3 nodes as polygons, two-node simplices as lines); any exception on a drawable network is a violation.",
+   note="Reduced reach, stated: coordinates are floats from numpy/networkx and artists are built by matplotlib, so geometry, finiteness and rendering are observed per path, not solver-decided; the solver quantifies labels, ids and max_order - every place where layout or drawing code looks a label up, compares it or uses it as a position. draw_bipartite, draw_multilayer, directed drawings, hull polygons, colours and sizes are outside.",
+   technique="bounded symbolic execution (z3) of the real layout/draw code over symbolic labels with enumerated shapes; artists read back from matplotlib collections"),
 }
 NOT_APPLICABLE = {
- "C20": "layouts/drawing: outputs are floating-point coordinates and matplotlib collections produced in networkx/numpy/matplotlib C code; labels reach no decision there, nothing for a solver to decide",
 }
 PENDING = "check not built yet in this revision (planned per DESIGN.md section 5)"
 
